@@ -70,15 +70,24 @@ def run(prog, tier):
     # ---------------------------------------------------------------- taylor-branch (derived from F, not transcribed)
     tn = prog.function(REL, "trapezium_near_zero")
     near = guard(lambda: ex.run(tn.body, {tn.args.args[0].arg: x, tn.args.args[1].arg: dh}))
-    T0 = anf.subst(near, {("sym", "dh"): R.const(0)})
-    obs.append(formula_ob("taylor-branch", fqual(mi, tn) + "[order-0]", T0, x, REL, tn.lineno,
-                          what="near-zero branch at dh = 0"))
+    try:
+        T0 = anf.subst(near, {("sym", "dh"): R.const(0)})
+        T1 = anf.subst(anf.diff(near, ("sym", "dh")), {("sym", "dh"): R.const(0)})
+    except Unsupported as e:
+        # the expansion is used exactly where dh is (near) zero: it must be regular there
+        T0 = T1 = None
+        obs.append(struct_ob("taylor-branch", fqual(mi, tn) + "[order-0]", False,
+                             f"the near-zero branch is singular at dh = 0 ({e}): `{U(last_return(tn).value)[:120]}`", REL, tn.lineno, tier="F"))
+        obs.append(struct_ob("taylor-branch", fqual(mi, tn) + "[order-1]", False, "see order-0", REL, tn.lineno, tier="F"))
+    if T0 is not None:
+        obs.append(formula_ob("taylor-branch", fqual(mi, tn) + "[order-0]", T0, x, REL, tn.lineno,
+                              what="near-zero branch at dh = 0"))
     dF_ddh = anf.diff(F, ("sym", "dh"))
     dF_dT = anf.diff(F, ("sym", "T"))
     slope = anf.subst(-(dF_ddh.div(dF_dT)), {("sym", "dh"): R.const(0), ("sym", "T"): x})
-    T1 = anf.subst(anf.diff(near, ("sym", "dh")), {("sym", "dh"): R.const(0)})
-    obs.append(formula_ob("taylor-branch", fqual(mi, tn) + "[order-1]", T1, slope, REL, tn.lineno,
-                          what="d(near-zero branch)/d(dh) at dh = 0 vs the implicit-function derivative of the exact transform"))
+    if T1 is not None:
+        obs.append(formula_ob("taylor-branch", fqual(mi, tn) + "[order-1]", T1, slope, REL, tn.lineno,
+                              what="d(near-zero branch)/d(dh) at dh = 0 vs the implicit-function derivative of the exact transform"))
 
     # ---------------------------------------------------------------- dispatch between the branches
     tt = prog.function(REL, "trapezium_transform")
